@@ -376,6 +376,9 @@ func mayReturnNil(e *flow.Eval, r *ssa.Return, ei int) bool {
 	if flow.IsNilConst(v) {
 		return true
 	}
+	if _, isMI := v.(*ssa.MakeInterface); isMI {
+		return false // a concrete value (`&lengthError{…}`) stored into the error: never the nil interface
+	}
 	t := e.Select(v, nil, r)
 	if t.Op == "call" {
 		switch t.Val {
